@@ -105,24 +105,34 @@ type universe struct {
 
 func mkUniverse(rng *rand.Rand, nAcc, nKeys int) *universe {
 	u := &universe{}
-	for i := 0; i < nAcc; i++ {
+	seenAddr := map[common.Address]bool{token: true}
+	for len(u.addrs) < nAcc {
 		var a common.Address
 		rng.Read(a[:])
-		if i%7 == 0 && i > 0 { // long shared prefixes between addresses
+		if i := len(u.addrs); i%7 == 0 && i > 0 { // long shared prefixes between addresses
 			copy(a[:], u.addrs[i-1][:])
 			a[19] ^= byte(1 + rng.Intn(255))
 		}
-		u.addrs = append(u.addrs, a)
+		if !seenAddr[a] {
+			seenAddr[a] = true
+			u.addrs = append(u.addrs, a)
+		}
 	}
-	for i := 0; i < nKeys; i++ {
+	seenKey := map[string]bool{}
+	addKey := func(k []byte) bool {
+		if seenKey[string(k)] {
+			return false
+		}
+		seenKey[string(k)] = true
+		u.keys = append(u.keys, k)
+		return true
+	}
+	for len(u.keys) < nKeys {
 		k := make([]byte, 1+rng.Intn(40))
 		rng.Read(k)
-		if i%5 == 1 { // a key that is a prefix of the next
-			u.keys = append(u.keys, k, append(append([]byte{}, k...), byte(rng.Intn(256))))
-			i++
-			continue
+		if addKey(k) && len(u.keys)%5 == 2 { // followed by a key it is a prefix of
+			addKey(append(append([]byte{}, k...), byte(rng.Intn(256))))
 		}
-		u.keys = append(u.keys, k)
 	}
 	for i := 0; i < 24; i++ {
 		v := make([]byte, 1+rng.Intn(80))
@@ -347,21 +357,21 @@ func reopen(mem *db.MemDatabase, root rootInfo, u *universe) (present, resolvabl
 	for i, a := range u.addrs {
 		want := root.snap[i]
 		if s.Exist(a) != want.exist {
-			note(&contentOK, "account %x exist=%v", a, !want.exist)
+			note(&contentOK, "account %x exist=%v", a[:], !want.exist)
 		}
 		if s.GetNonce(a) != want.nonce {
-			note(&contentOK, "account %x nonce", a)
+			note(&contentOK, "account %x nonce", a[:])
 		}
 		if s.GetBalance(a).String() != want.bal {
-			note(&contentOK, "account %x balance %s want %s", a, s.GetBalance(a), want.bal)
+			note(&contentOK, "account %x balance %s want %s", a[:], s.GetBalance(a), want.bal)
 		}
 		if string(s.GetCode(a)) != want.code {
-			note(&contentOK, "account %x code", a)
+			note(&contentOK, "account %x code", a[:])
 		}
 		live := 0
 		for j, k := range u.keys {
 			if string(s.GetData(a, k)) != want.slots[j] {
-				note(&contentOK, "account %x slot %x", a, k)
+				note(&contentOK, "account %x slot %x", a[:], k)
 			}
 			if want.slots[j] != "" {
 				live++
@@ -374,10 +384,10 @@ func reopen(mem *db.MemDatabase, root rootInfo, u *universe) (present, resolvabl
 				n++
 			}
 			if it != nil && it.Err != nil {
-				note(&resolvable, "storage walk of %x: %v", a, it.Err)
+				note(&resolvable, "storage walk of %x: %v", a[:], it.Err)
 			}
 			if n != live {
-				note(&contentOK, "account %x iterates %d slots, %d written", a, n, live)
+				note(&contentOK, "account %x iterates %d slots, %d written", a[:], n, live)
 			}
 			pairs += n
 		}
